@@ -478,10 +478,44 @@ func coqCfg(s *ctlSpec) string {
 	for _, r := range simResources {
 		known = append(known, coqKid(kidSpec{APIVersion: r.APIVersion(), Resource: r.Resource, Kind: r.Kind, Namespaced: r.Namespaced}))
 	}
-	return fmt.Sprintf("(mkCfg %s %s %s %s %s true %s %s [%s] %s %s [%s] %s false)", vh.MustCoqString(s.Name),
+	return fmt.Sprintf("(mkCfg %s %s %s %s %s true %s %s [%s] %s %s [%s] %s false %s %s)", vh.MustCoqString(s.Name),
 		vh.MustCoqString(s.ParentAPIVersion), vh.MustCoqString(s.ParentKind), vh.MustCoqString(s.ParentResource),
 		vh.CoqBool(s.ParentNamespaced), vh.CoqBool(s.GenSelector), coqSelector(s.CtlSelector),
-		strings.Join(kids, "; "), vh.CoqBool(!s.NoSync), vh.CoqBool(s.Finalize), strings.Join(known, "; "), vh.CoqBool(s.SSA))
+		strings.Join(kids, "; "), vh.CoqBool(!s.NoSync), vh.CoqBool(s.Finalize), strings.Join(known, "; "), vh.CoqBool(s.SSA), coqFieldPaths(s), coqChecks(s))
+}
+
+func coqFieldPaths(s *ctlSpec) string {
+	fps := s.FieldPaths
+	if len(fps) == 0 {
+		fps = []string{"spec"}
+	}
+	parts := []string{}
+	for _, fp := range fps {
+		parts = append(parts, vh.CoqStringList(strings.Split(fp, ".")))
+	}
+	return "[" + strings.Join(parts, "; ") + "]"
+}
+
+func coqOptString(s *string) string {
+	if s == nil {
+		return "None"
+	}
+	return "(Some " + vh.MustCoqString(*s) + ")"
+}
+
+func coqChecks(s *ctlSpec) string {
+	parts := []string{}
+	for _, k := range s.Kids {
+		if len(k.Checks) == 0 {
+			continue
+		}
+		cs := []string{}
+		for _, c := range k.Checks {
+			cs = append(cs, fmt.Sprintf("(%s, %s, %s)", vh.MustCoqString(c.Type), coqOptString(c.Status), coqOptString(c.Reason)))
+		}
+		parts = append(parts, fmt.Sprintf("(%s, [%s])", vh.MustCoqString(resKey(k.Resource, k.APIVersion)), strings.Join(cs, "; ")))
+	}
+	return "[" + strings.Join(parts, "; ") + "]"
 }
 
 func coqRound(s *ctlSpec, r *roundRec) string {
